@@ -11,6 +11,9 @@ package main
 // hook trace of that execution (ignored by the model comparison, used by the oracle and by family SIMTRACE).
 //
 // body:  gmp jit T G M  sel(4 × Is)  { name nP nI nS hasIn Is(batches) { P… S… [I…] }×N }×M  L { 10 ints }×L
+//        a model with TABLE-valued (dimensioned) parameters has nP = -1 and every node's parameters are length-prefixed
+//        (Fs): the node's PACKED column [nPts, inputAmount[nPts], proportion[nPts]] (different lengths per node); the
+//        `parameters` dataset of the input file is the table padded to the model-wide maximum of each dimension
 // impl:  ok { name created  ds(outputs) ds(inputs) ds(states) extra }×M  | ntrace { ev a b }…
 //        ds = 0 | 1 rank dims… values…          (exit <code> / panic <class> when ow-sim fails)
 
@@ -37,6 +40,7 @@ import (
 type SimModel struct {
 	Name       string
 	NP, NI, NS int
+	Table      bool // dimensioned parameters: P[node] is the node's packed column (own table lengths); NP is not used
 	HasInputs  bool
 	Batches    []int         // cumulative node counts per generation
 	P          [][]float64   // [node][param]
@@ -49,6 +53,35 @@ func (m *SimModel) Total() int {
 		return 0
 	}
 	return m.Batches[len(m.Batches)-1]
+}
+
+// paramRows is the wrapper's parameter array [row][set] for the given nodes: one row per scalar parameter, or — for a
+// model with table-valued parameters — the packed columns laid out (padded with zeros) to the maximum of each dimension
+// OVER THE GIVEN NODES, exactly as the generated FindDimensions / ApplyParameters expect (buildParams, fam_w.go).
+func (m *SimModel) paramRows(nodes []int) [][]float64 {
+	if m.Table {
+		cols := make([][]float64, len(nodes))
+		for i, n := range nodes {
+			cols[i] = m.P[n]
+		}
+		return buildParams(specOf(m.Name), cols)
+	}
+	rows := make([][]float64, m.NP)
+	for p := range rows {
+		rows[p] = make([]float64, len(nodes))
+		for i, n := range nodes {
+			rows[p][i] = m.P[n][p]
+		}
+	}
+	return rows
+}
+
+// tableLen is the table length (first dimension parameter) of a node of a table model.
+func (m *SimModel) tableLen(n int) int {
+	if !m.Table || len(m.P[n]) == 0 {
+		return 0
+	}
+	return int(m.P[n][0])
 }
 
 func (m *SimModel) Start(g int) int {
@@ -64,6 +97,10 @@ type SimGraph struct {
 	Models   []*SimModel
 	Sel      [4][]int // outputs-for, no-outputs-for, inputs-for, no-inputs-for (model indices)
 	Links    [][10]int
+	// generator bookkeeping (not part of the protocol line)
+	chain                      bool
+	tableRepairs, tableRedraws int
+	tableInterior              bool
 }
 
 func (g *SimGraph) Body() string {
@@ -78,11 +115,20 @@ func (g *SimGraph) Body() string {
 		if m.HasInputs {
 			hi = 1
 		}
-		fmt.Fprintf(&b, " %s %d %d %d %d %s", m.Name, m.NP, m.NI, m.NS, hi, Is(m.Batches))
+		np := m.NP
+		if m.Table {
+			np = -1
+		}
+		fmt.Fprintf(&b, " %s %d %d %d %d %s", m.Name, np, m.NI, m.NS, hi, Is(m.Batches))
 		for n := 0; n < m.Total(); n++ {
-			for _, v := range m.P[n] {
+			if m.Table {
 				b.WriteByte(' ')
-				b.WriteString(F(v))
+				b.WriteString(Fs(m.P[n]))
+			} else {
+				for _, v := range m.P[n] {
+					b.WriteByte(' ')
+					b.WriteString(F(v))
+				}
 			}
 			for _, v := range m.S[n] {
 				b.WriteByte(' ')
@@ -120,13 +166,21 @@ func parseSimGraph(body string) *SimGraph {
 		m := &SimModel{}
 		m.Name = t.next()
 		m.NP, m.NI, m.NS = t.int(), t.int(), t.int()
+		if m.NP < 0 {
+			m.Table, m.NP = true, 0
+		}
 		m.HasInputs = t.int() == 1
 		m.Batches = t.ints()
 		N := m.Total()
 		for n := 0; n < N; n++ {
-			p := make([]float64, m.NP)
-			for j := range p {
-				p[j] = t.float()
+			var p []float64
+			if m.Table {
+				p = t.floats()
+			} else {
+				p = make([]float64, m.NP)
+				for j := range p {
+					p[j] = t.float()
+				}
 			}
 			s := make([]float64, m.NS)
 			for j := range s {
@@ -284,14 +338,17 @@ func writeSimInput(g *SimGraph, fn string) {
 			b[i] = int32(v)
 		}
 		h5WriteRaw(&grp.CommonFG, "batches", hdf5.T_NATIVE_INT32, []uint{uint(len(b))}, &b, len(b))
-		// parameters [nP, N]
-		pv := make([]float64, 0, m.NP*N)
-		for p := 0; p < m.NP; p++ {
-			for n := 0; n < N; n++ {
-				pv = append(pv, m.P[n][p])
-			}
+		// parameters [nP, N]; a table model: the WHOLE table padded to the model-wide maximum of each dimension
+		all := make([]int, N)
+		for n := range all {
+			all[n] = n
 		}
-		h5Float64s(&grp.CommonFG, "parameters", []uint{uint(m.NP), uint(N)}, pv)
+		rows := m.paramRows(all)
+		pv := make([]float64, 0, len(rows)*N)
+		for _, row := range rows {
+			pv = append(pv, row...)
+		}
+		h5Float64s(&grp.CommonFG, "parameters", []uint{uint(len(rows)), uint(N)}, pv)
 		// states [N, nS]
 		sv := make([]float64, 0, m.NS*N)
 		for n := 0; n < N; n++ {
@@ -392,7 +449,11 @@ type simNodeRes struct {
 	S   []float64
 }
 
-func simReference(g *SimGraph) [][]*simNodeRes {
+func simReference(g *SimGraph) [][]*simNodeRes { return simReferenceHook(g, nil) }
+
+// simReferenceHook: `before` (generator only) sees every node's final inputs just before the node runs and may still
+// adjust that node's parameters; returning false abandons the run (nil result).
+func simReferenceHook(g *SimGraph, before func(mi, n int, in [][]float64) bool) [][]*simNodeRes {
 	res := make([][]*simNodeRes, len(g.Models))
 	for i, m := range g.Models {
 		res[i] = make([]*simNodeRes, m.Total())
@@ -418,11 +479,12 @@ func simReference(g *SimGraph) [][]*simNodeRes {
 						}
 					}
 				}
-				rc := &RunCase{Model: m.Name, Cells: 1}
-				rc.Params = make([][]float64, m.NP)
-				for j := range rc.Params {
-					rc.Params[j] = []float64{m.P[n][j]}
+				if before != nil && !before(mi, n, in) {
+					return nil
 				}
+				// one cell with ITS OWN parameter column (a table model: its own table lengths are the dimensions)
+				rc := &RunCase{Model: m.Name, Cells: 1}
+				rc.Params = m.paramRows([]int{n})
 				rc.Inputs = [][][]float64{in}
 				rc.States = [][]float64{append([]float64{}, m.S[n]...)}
 				var out [][]float64
@@ -643,6 +705,13 @@ type simKernel struct {
 	Name   string
 	Params func(r *Rng) []float64
 	States func(r *Rng, p []float64) []float64
+	// Table: a model with table-valued (dimensioned) parameters; TableParams draws the PACKED column of one node for a
+	// given table length (Params is not used)
+	Table       bool
+	TableParams func(r *Rng, nPts int) []float64
+	// Inexact: uses pow (compared at 1e-9): never put upstream of a table model, whose interpolation amplifies a relative
+	// difference without bound where the proportion crosses zero
+	Inexact bool
 }
 
 func simNoParams(r *Rng) []float64 { return []float64{} }
@@ -688,8 +757,140 @@ var simKernels = []simKernel{
 		States: func(r *Rng, p []float64) []float64 { return []float64{r.Uniform(0, 20)} }},
 	// a pair of models one of whose names contains the other's ("all command-line output selections": a selection naming
 	// one must not select the other). They use pow, so C07 compares the SIM family at 1e-9 relative.
-	{Name: "DynamicSednetGully", Params: func(r *Rng) []float64 { return modelGens["DynamicSednetGully"].Params(r) }},
-	{Name: "DynamicSednetGullyAlt", Params: func(r *Rng) []float64 { return modelGens["DynamicSednetGullyAlt"].Params(r) }},
+	{Name: "DynamicSednetGully", Inexact: true, Params: func(r *Rng) []float64 { return modelGens["DynamicSednetGully"].Params(r) }},
+	{Name: "DynamicSednetGullyAlt", Inexact: true, Params: func(r *Rng) []float64 { return modelGens["DynamicSednetGullyAlt"].Params(r) }},
+	// a DIMENSIONED model (parameters nPts, inputAmount[nPts], proportion[nPts]): every node has its own table length, the
+	// parameter table of the file is padded to the model-wide maximum. Linear interpolation (+ - * / only): bit-exact.
+	{Name: "RatingCurvePartition", Table: true, TableParams: simRatingColumn},
+}
+
+const simTableHuge = 1e300
+
+// simTableAllowEmpty (argument table-empty=1 or OW_SIM_TABLE_EMPTY=1): also draw dimensioned models without any node.
+var simTableAllowEmpty = false
+
+// simRatingColumn draws the packed parameter column [nPts, inputAmount[nPts], proportion[nPts]] of one
+// RatingCurvePartition node: strictly increasing knots, proportions in [0,1]. The kernel panics (and a panic kills
+// ow-sim) when an inflow lies outside [first knot, last knot]; finaliseTables widens the end knots of the nodes whose
+// inflow needs it.
+func simRatingColumn(r *Rng, n int) []float64 {
+	xs := make([]float64, n)
+	ys := make([]float64, n)
+	switch r.Intn(10) {
+	case 0:
+		xs[0] = -simTableHuge
+	case 1, 2:
+		xs[0] = -r.LogUniform(1e-3, 1e3)
+	default:
+		xs[0] = 0
+	}
+	x := 0.0
+	step := r.LogUniform(1e-3, 30)
+	for i := 1; i < n-1; i++ {
+		dx := Snap(r, step*(0.1+r.F01()))
+		if !(dx > 0) {
+			dx = step
+		}
+		x += dx
+		xs[i] = x
+	}
+	if r.Chance(0.6) {
+		xs[n-1] = simTableHuge
+	} else {
+		xs[n-1] = x + r.LogUniform(1, 1e4)
+	}
+	for i := range ys {
+		switch r.Intn(6) {
+		case 0:
+			ys[i] = 0
+		case 1:
+			ys[i] = 1
+		default:
+			ys[i] = r.F01()
+		}
+	}
+	p := append([]float64{float64(n)}, xs...)
+	return append(p, ys...)
+}
+
+// simTableLengths draws the table lengths (2…9) of the N nodes of a table model. Mostly ONE node carries the model-wide
+// maximum and all others are strictly shorter, so that every generation but one lies below the dimension to which the
+// parameter table of the file is padded.
+func simTableLengths(r *Rng, N int) []int {
+	out := make([]int, N)
+	if N == 0 {
+		return out
+	}
+	if r.Chance(0.25) {
+		for i := range out {
+			out[i] = r.Range(2, 9)
+		}
+		return out
+	}
+	max := r.Range(3, 9)
+	for i := range out {
+		out[i] = r.Range(2, max-1)
+	}
+	out[r.Intn(N)] = max
+	return out
+}
+
+// finaliseTables runs the reference semantics once over a freshly drawn graph and, node by node in execution order,
+// makes the table of every table-model node cover the inflow that reaches it (first knot → -1e300 when an inflow lies
+// below it — VariablePartition with a stored fraction > 1 and Muskingum produce negative flows —, last knot → 1e300 when
+// one lies above). false: a NaN / ±Inf / beyond-1e300 value reaches such a node (the kernel would panic): draw again.
+func finaliseTables(g *SimGraph) bool {
+	any := false
+	for _, m := range g.Models {
+		any = any || m.Table
+	}
+	if !any {
+		return true
+	}
+	ok := simReferenceHook(g, func(mi, n int, in [][]float64) bool {
+		m := g.Models[mi]
+		if !m.Table {
+			return true
+		}
+		np := m.tableLen(n)
+		p := m.P[n]
+		for _, s := range in {
+			for _, v := range s {
+				if math.IsNaN(v) || math.Abs(v) > simTableHuge {
+					return false
+				}
+				if v < p[1] {
+					p[1] = -simTableHuge
+					g.tableRepairs++
+				}
+				if v > p[np] {
+					p[np] = simTableHuge
+					g.tableRepairs++
+				}
+				if v > p[2] && np > 2 {
+					g.tableInterior = true
+				}
+			}
+		}
+		return true
+	}) != nil
+	return ok
+}
+
+// drawSimGraph: a graph whose table-model nodes (if any) can be run by the kernel.
+func drawSimGraph(r *Rng, tier string, pool []simKernel) *SimGraph {
+	redraws := 0
+	for {
+		g := drawSimGraphOnce(r, tier, pool)
+		if finaliseTables(g) {
+			g.tableRedraws = redraws
+			return g
+		}
+		redraws++
+		if redraws >= 50 {
+			panic("drawSimGraph: no runnable graph with a table model in 50 draws")
+		}
+	}
 }
 
 func simKernelNames() []string {
@@ -700,7 +901,7 @@ func simKernelNames() []string {
 	return out
 }
 
-func drawSimGraph(r *Rng, tier string, pool []simKernel) *SimGraph {
+func drawSimGraphOnce(r *Rng, tier string, pool []simKernel) *SimGraph {
 	g := &SimGraph{}
 	g.GMP = []int{1, 2, 4, 8, 0}[r.Intn(5)]
 	g.Jit = 0
@@ -770,12 +971,52 @@ func drawSimGraph(r *Rng, tier string, pool []simKernel) *SimGraph {
 			g.T = r.Range(2, 16)
 		}
 	}
+	// TABLE class: a model with dimensioned parameters among the models (always, by the permutation, in ≈ M/len(pool) of the
+	// graphs; here: forced into another fifth, and into 40 % of the CHAIN graphs as the chained model — no stored inputs, one
+	// small generation after the other, each with its own table lengths)
+	tableAt := -1
+	for i, x := range perm {
+		if pool[x].Table {
+			tableAt = i
+		}
+	}
+	if tableAt >= 0 && pairCase < 0 {
+		if chain && r.Chance(0.4) {
+			perm[1], perm[tableAt] = perm[tableAt], perm[1]
+		} else if !chain && tableAt >= M && r.Chance(0.2) {
+			at := r.Intn(M)
+			perm[at], perm[tableAt] = perm[tableAt], perm[at]
+		}
+	}
+	tableGraph := false
+	for mi := 0; mi < M; mi++ {
+		tableGraph = tableGraph || pool[perm[mi]].Table
+	}
+	if tableGraph {
+		// only bit-exact kernels around a table model: replace the pow-using ones by the next unused exact kernels
+		spare := append([]int{}, perm[M:]...)
+		kept := []int{}
+		for mi := 0; mi < M; mi++ {
+			x := perm[mi]
+			for pool[x].Inexact && len(spare) > 0 {
+				x, spare = spare[0], spare[1:]
+			}
+			if !pool[x].Inexact {
+				kept = append(kept, x)
+			}
+		}
+		perm, M = kept, len(kept)
+		if chain && M < 2 { // a pool without a second exact kernel (models=…)
+			chain = false
+		}
+	}
+	g.chain = chain
 	nodesLeft := 30
 	anyInputs := false
 	for mi := 0; mi < M; mi++ {
 		k := pool[perm[mi]]
 		d := NewModel(k.Name).Description()
-		m := &SimModel{Name: k.Name, NP: len(d.Parameters), NI: len(d.Inputs), NS: len(d.States)}
+		m := &SimModel{Name: k.Name, NP: len(d.Parameters), NI: len(d.Inputs), NS: len(d.States), Table: k.Table}
 		m.HasInputs = r.Chance(0.65)
 		if chain {
 			m.HasInputs = mi == 0
@@ -783,6 +1024,9 @@ func drawSimGraph(r *Rng, tier string, pool []simKernel) *SimGraph {
 		// counts per generation: many empty batches
 		emptyP := r.Uniform(0.1, 0.7)
 		allEmpty := r.Chance(0.04)
+		if k.Table {
+			emptyP *= 0.5 // the nodes of a dimensioned model spread over several generations
+		}
 		cum := 0
 		for gen := 0; gen < g.G; gen++ {
 			c := 0
@@ -802,8 +1046,31 @@ func drawSimGraph(r *Rng, tier string, pool []simKernel) *SimGraph {
 			cum += c
 			m.Batches = append(m.Batches, cum)
 		}
+		if k.Table && cum == 0 && !simTableAllowEmpty {
+			// a dimensioned model type WITHOUT ANY NODE makes ow-sim panic at start-up (initDimensions → FindDimensions →
+			// Maximum() of an empty array: index out of range) — reported as an observation, see `table-empty=1`; here the
+			// model gets one node, or is left out when the node budget is used up
+			if nodesLeft <= 0 {
+				continue
+			}
+			g0 := r.Intn(g.G)
+			for gen := g0; gen < g.G; gen++ {
+				m.Batches[gen] = 1
+			}
+			cum = 1
+			nodesLeft--
+		}
+		var tableLens []int
+		if k.Table {
+			tableLens = simTableLengths(r, cum)
+		}
 		for n := 0; n < cum; n++ {
-			p := k.Params(r)
+			var p []float64
+			if k.Table {
+				p = k.TableParams(r, tableLens[n])
+			} else {
+				p = k.Params(r)
+			}
 			m.P = append(m.P, p)
 			var s []float64
 			if k.States != nil {
@@ -819,8 +1086,10 @@ func drawSimGraph(r *Rng, tier string, pool []simKernel) *SimGraph {
 					if r.Chance(0.1) {
 						in[j] = make([]float64, g.T)
 					}
-					if g.T > 0 && r.Chance(0.03) {
-						in[j][r.Intn(g.T)] = math.NaN() // a gap in a stored record: NaN must propagate through the links like any value
+					if g.T > 0 && !tableGraph && r.Chance(0.03) {
+						// a gap in a stored record: NaN must propagate through the links like any value (not in graphs with a table
+						// model: RatingCurvePartition panics on a NaN inflow, and a panic kills ow-sim)
+						in[j][r.Intn(g.T)] = math.NaN()
 					}
 				}
 				m.In = append(m.In, in)
@@ -958,8 +1227,9 @@ func genSim(c *Ctx) {
 		n *= 8
 	}
 	par := parseI(c.Arg("par", "6"))
-	c.Stats.Rule = "a DAG of ≤30 nodes over ≤5 catalogued bit-exact kernels partitioned into ≤6 generations (empty batches, fan-in with repeated destination input, fan-out, models without stored inputs, models without nodes), ≤60 links sorted by source generation, T≤16, random -outputs-for/-no-outputs-for/-inputs-for/-no-inputs-for, GOMAXPROCS∈{1,2,4,8,default}, schedule jitter; one run of the real ow-sim binary per case; non-trivial = ≥2 generations with ≥1 link; distinct by the full protocol line"
+	c.Stats.Rule = "a DAG of ≤30 nodes over ≤5 catalogued kernels (bit-exact ones + the pow-using Gully pair; in ≈1/3 of the graphs a DIMENSIONED model, RatingCurvePartition, every node with its own table length 2…9, parameter table padded to the model-wide maximum, mostly only one generation reaching that maximum) partitioned into ≤6 generations (empty batches, fan-in with repeated destination input, fan-out, models without stored inputs, models without nodes), ≤60 links sorted by source generation, T≤16, random -outputs-for/-no-outputs-for/-inputs-for/-no-inputs-for, GOMAXPROCS∈{1,2,4,8,default}, schedule jitter; one run of the real ow-sim binary per case; non-trivial = ≥2 generations with ≥1 link; distinct by the full protocol line"
 	pool := simPool(c)
+	simTableAllowEmpty = c.Arg("table-empty", "0") == "1" || os.Getenv("OW_SIM_TABLE_EMPTY") == "1"
 	bodies := make([]string, n)
 	graphs := make([]*SimGraph, n)
 	for i := 0; i < n; i++ {
@@ -1008,6 +1278,56 @@ func genSim(c *Ctx) {
 				c.Stats.Count("model-without-nodes")
 			}
 			c.Stats.Count("kernel:" + m.Name)
+		}
+		for _, m := range g.Models {
+			if !m.Table || m.Total() == 0 {
+				continue
+			}
+			c.Stats.Count("table_model")
+			if g.chain {
+				c.Stats.Count("table_model_in_chain_graph")
+			}
+			if !m.HasInputs {
+				c.Stats.Count("table_model_without_stored_inputs")
+			}
+			maxN, gens, below := 0, 0, 0
+			for n := 0; n < m.Total(); n++ {
+				if l := m.tableLen(n); l > maxN {
+					maxN = l
+				}
+				c.Stats.Count("table_len:" + strconv.Itoa(m.tableLen(n)))
+			}
+			for gen := 0; gen < g.G; gen++ {
+				if m.Batches[gen] == m.Start(gen) {
+					continue
+				}
+				gens++
+				gmax := 0
+				for n := m.Start(gen); n < m.Batches[gen]; n++ {
+					if l := m.tableLen(n); l > gmax {
+						gmax = l
+					}
+				}
+				if gmax < maxN {
+					below++
+				}
+			}
+			if gens >= 2 {
+				c.Stats.Count("table_model_over_2+_generations")
+			}
+			if below > 0 {
+				c.Stats.Count("generation_below_max_dims")
+				c.Stats.CountN("generations_below_max_dims_total", below)
+			}
+			c.Stats.CountN("table_nodes", m.Total())
+		}
+		if g.tableInterior {
+			c.Stats.Count("table_inflow_beyond_second_knot")
+		}
+		c.Stats.CountN("table_end_knot_widened", g.tableRepairs)
+		c.Stats.CountN("table_graph_redrawn", g.tableRedraws)
+		if g.chain {
+			c.Stats.Count("chain_graph")
 		}
 		c.Stats.Count("G:" + strconv.Itoa(g.G))
 		c.Stats.Count("T:" + bucket(g.T))
